@@ -289,8 +289,10 @@ pub fn c16_compose() {
     {
         // native replay: the three terms are the real functions and the accumulators are what init() gives for the position, so the
         // stub-world values cannot be imposed. The counterexample's position, the same position with either side stripped to its
-        // king, and a few lopsided fixed positions are evaluated; the first one where the evaluation is not the blend of the sum
-        // of its real terms is reported (each is a valid position with its real accumulators: a native failure is genuine).
+        // king, and a few lopsided fixed positions are evaluated together with their colour-mirrored twins; the first pair whose
+        // evaluations (from the mover's view) differ is reported - natively the PROPERTY is the oracle, not the composition lemma, so
+        // that a property-preserving change of the composition (say, a new symmetric term) ends as a non-reproducing counterexample
+        // (exit 2: the lemma set no longer covers the evaluation), never as a violation.
         let strip = |q: &BPos, c: usize| { let mut r = *q; let mut k = 0; while k < 5 { r.pcs[c][k] = 0; k += 1; } r.rights = [[false; 2]; 2]; r.ep = 64; r };
         let mut cands = vec![p, strip(&p, 0), strip(&p, 1)];
         for f in ["4k3/8/8/8/8/8/8/QQ2K3 w - - 0 1", "qq2k3/8/8/8/8/8/8/4K3 b - - 0 1", "4k3/8/8/8/8/8/8/QQ2K3 b - - 0 1", "qq2k3/8/8/8/8/8/8/4K3 w - - 0 1",
@@ -298,16 +300,16 @@ pub fn c16_compose() {
             cands.push(pos::bpos_of_bitboards(&Game::from_fen(f).unwrap()));
         }
         for q in cands {
-            if !pos::valid(&q) { continue; }
-            let mut g = pos::game_of(&q);
+            // only positions a game can reach (the property quantifies over legal positions; accumulators of 40-pawn boards overflow by design)
+            if !pos::valid(&q) || !pos::legal_material(&q) { continue; }
+            let qm = pos::mirror(&q);
+            let (mut g, mut gm) = (pos::game_of(&q), pos::game_of(&qm));
             g.incremental_eval = IncrementalEvalFields::init(&g.board);
-            let mut t = ea::Trace::new();
-            let sum = g.incremental_eval.piece_square_tables + ea::material_eval::<false>(&g, &mut t) + ea::mobility_eval::<false>(&g, &mut t) + ea::pawn_eval::<false>(&g, &mut t);
-            let want = sum.for_phase(g.incremental_eval.phase_value);
-            let got = eval::absolute_eval(&g);
-            if got != want || eval::eval(&g) != eval::Eval::from_white_eval(want, g.player) {
-                println!("REPLAY-CASE {{\"fen\":\"{}\",\"eval\":{},\"blend_of_sum_of_terms\":{}}}", pos::fen_of(&q), got.0, want.0);
-                panic!("evaluation is not the blend of the sum of its terms");
+            gm.incremental_eval = IncrementalEvalFields::init(&gm.board);
+            let (a, b) = (eval::eval(&g), eval::eval(&gm));
+            if a != b || !(a.0 > -31900 && a.0 < 31900) {
+                println!("REPLAY-CASE {{\"fen\":\"{}\",\"mirror\":\"{}\",\"eval\":{},\"eval_of_mirror\":{}}}", pos::fen_of(&q), pos::fen_of(&qm), a.0, b.0);
+                panic!("evaluation differs between a position and its colour-mirrored twin (or leaves the non-mate band)");
             }
         }
         return;
